@@ -8,12 +8,12 @@
 EXTENDS Integers, Sequences, TLC, Json
 CONSTANTS Depth, Shift, Win0, Mms
 
-Alphabet == {"SendS", "SendM", "SendL", "Flow0", "Flow1", "Flow2", "Flow3", "Flow2Lag", "Flow2Unset", "In", "InBig"}
+Alphabet == {"SendS", "SendM", "SendL", "SendL2", "Flow0", "Flow1", "Flow2", "Flow3", "Flow2Lag", "Flow2Unset", "In", "InBig"}
 VARIABLES script, nsend, nin
 vars == <<script, nsend, nin>>
 Init == script = <<>> /\ nsend = 0 /\ nin = 0
 Step(e) == /\ Len(script) < Depth /\ script' = Append(script, e)
-           /\ nsend' = IF e \in {"SendS", "SendM", "SendL"} THEN nsend + 1 ELSE nsend
+           /\ nsend' = IF e \in {"SendS", "SendM", "SendL", "SendL2"} THEN nsend + 1 ELSE nsend
            /\ nin' = IF e \in {"In", "InBig"} THEN nin + 1 ELSE nin
 Next == \E e \in Alphabet : Step(e)
 Spec == Init /\ [][Next]_vars
@@ -38,6 +38,7 @@ Body(sc, i, ns, ni) ==
   CASE e = "SendS" -> <<[e |-> "ASend", l |-> "L1", m |-> ns + 1, len |-> 20]>> \o Body(sc, i + 1, ns + 1, ni)
     [] e = "SendM" -> <<[e |-> "ASend", l |-> "L1", m |-> ns + 1, len |-> 1100]>> \o Body(sc, i + 1, ns + 1, ni)
     [] e = "SendL" -> <<[e |-> "ASend", l |-> "L1", m |-> ns + 1, len |-> 330]>> \o Body(sc, i + 1, ns + 1, ni)
+    [] e = "SendL2" -> <<[e |-> "ASend", l |-> "L1", m |-> ns + 1, len |-> 200]>> \o Body(sc, i + 1, ns + 1, ni)
     [] e \in {"Flow0", "Flow1", "Flow2", "Flow3"} -> <<PFlow([seen |-> 0], CASE e = "Flow0" -> 0 [] e = "Flow1" -> 1 [] e = "Flow2" -> 2 [] OTHER -> 3)>> \o Body(sc, i + 1, ns, ni)
     [] e = "Flow2Lag" -> <<PFlow([seen |-> 1], 2)>> \o Body(sc, i + 1, ns, ni)
     [] e = "Flow2Unset" -> <<PFlow(-1, 2)>> \o Body(sc, i + 1, ns, ni)
